@@ -107,6 +107,8 @@ class Ctx:
         base = os.environ.get("VERIF_WORK_BASE", "/var/tmp")
         self.work = tempfile.mkdtemp(prefix=f"verif-{prop}-", dir=base)
         if not keep and not os.environ.get("VERIF_KEEP"):
+            _workdirs.append(self.work)
+        if not keep and not os.environ.get("VERIF_KEEP"):
             atexit.register(lambda: shutil.rmtree(self.work, ignore_errors=True))
         self.lock = threading.Lock()
         self.unit_cache = {}
@@ -124,6 +126,7 @@ class Ctx:
 
 _children = set()
 _children_lock = threading.Lock()
+_workdirs = []
 
 
 def _kill_children(*a):
@@ -134,7 +137,9 @@ def _kill_children(*a):
             except Exception:
                 pass
     if a:
-        sys.exit(143)
+        for d in list(_workdirs):
+            shutil.rmtree(d, ignore_errors=True)
+        os._exit(143)
 
 
 signal.signal(signal.SIGTERM, _kill_children)
@@ -337,8 +342,22 @@ def run_ob(ctx, ob):
         r.rss_kb = int(tl[-1])
     except Exception:
         pass
+    if to and "--external-sat-solver" not in ob.solver and not os.environ.get("VERIF_NO_RETRY"):
+        # safety net: one retry with another back end (kissat as external solver) before giving up
+        ob2 = Ob(**{**ob.__dict__, "solver": ["--external-sat-solver", "kissat"]})
+        acquire_mem(ctx, ob.mem_gb)
+        try:
+            rc, out, err, to, wall = run(cbmc_cmd(ob2, r.binary), timeout=ob.timeout, mem_gb=ob.mem_gb * 2 + 4, cwd=ctx.work)
+        finally:
+            release_mem(ctx, ob.mem_gb)
+        for fn in os.listdir("/tmp"):
+            if fn.startswith("external-sat"):
+                try: os.unlink(os.path.join("/tmp", fn))
+                except OSError: pass
+        r.wall = time.time() - t0
+        r.note = "retried with kissat after a CaDiCaL timeout"
     if to:
-        r.verdict, r.note = "inconclusive", f"timeout after {ob.timeout}s"
+        r.verdict, r.note = "inconclusive", f"timeout after {ob.timeout}s (both back ends)"
         return r
     results, msgs = parse_cbmc_json(out)
     m = re.search(r"Runtime decision procedure: ([0-9.]+)s", out)
